@@ -62,6 +62,9 @@ def run(tier):
         rec = recs[v["i"]]
         if rec["ev"] == "Save":
             last_save = rec
+            if rec["res"].startswith("oversize"):
+                chk.case(None)
+                chk.violation("C01:save-oversize", {"save_result": rec["res"], "saved_doc_objects": len(rec["doc"]["objects"]), "fmt": rec["fmt"]})
             continue
         if rec["ev"] == "File":
             last_save = None
@@ -78,6 +81,13 @@ def run(tier):
     for r in recs:
         if r["ev"] == "Save" and r["res"] == "ok" and len(r["doc"]["objects"]) >= 2:
             chk.sample({"fmt": r["fmt"], "saved_bytes_ascii": bytes(r["bytes"]).decode("latin-1")[:600]}, cap=2)
+    # size-boundary classes among the inputs (strings, names, arrays, stream contents at power-of-two boundaries)
+    szs = [r["sizes"] for r in recs if r["ev"] == "Reset" and "sizes" in r]
+    cls = {"hex>=257": sum(1 for z in szs if z[0] >= 257), "lit>=257": sum(1 for z in szs if z[1] >= 257), "name>=128": sum(1 for z in szs if z[2] >= 128),
+           "array>=256": sum(1 for z in szs if z[3] >= 256), "stream>=4096": sum(1 for z in szs if z[4] >= 4096)}
+    chk.extra["documents_by_size_class"] = cls
+    if min(cls.values()) < 3 and not chk.violations:
+        raise vlib.ToolError("vacuous: a size-boundary class is missing among the recorded documents: %r" % cls)
     if lifecycle.VACUITY and not chk.violations:
         raise vlib.ToolError(lifecycle.VACUITY)
     if not chk.violations:
